@@ -1,6 +1,7 @@
 package main
 
 import (
+	"os"
 	"fmt"
 	"go/types"
 	"strings"
@@ -304,7 +305,11 @@ func (vc *FuncVC) execCall(in ssa.Instruction, c *ssa.CallCommon, res ssa.Value)
 	}
 	// escaping field/element addresses: the callee may write through them
 	var escaped []string
+	_, isAtomic := atomicOp(name)
 	for i, a := range c.Args {
+		if isAtomic {
+			break
+		}
 		if argVals[i].Loc != nil && argVals[i].T.S == "" {
 			escaped = append(escaped, vc.storeComps(a)...)
 		} else if _, isPtr := a.Type().Underlying().(*types.Pointer); isPtr && vc.localSuffix(a) != "" {
@@ -314,12 +319,16 @@ func (vc *FuncVC) execCall(in ssa.Instruction, c *ssa.CallCommon, res ssa.Value)
 	var entries []logEntry
 	for _, w := range vc.watches {
 		if vc.matchWatch(w, name, kind) {
+			vc.watchHit[w.Label] = true
 			var ats []types.Type
 			for _, a := range c.Args {
 				ats = append(ats, a.Type())
 			}
 			entries = append(entries, vc.logCall(w, recv, args, ats, c.Args...))
 		}
+	}
+	for _, le := range entries {
+		vc.callPre[le.w.Label] = append(vc.callPre[le.w.Label], vc.cur)
 	}
 	var result *Val
 	var sig *types.Signature
@@ -350,6 +359,14 @@ func (vc *FuncVC) execCall(in ssa.Instruction, c *ssa.CallCommon, res ssa.Value)
 	if len(escaped) > 0 {
 		vc.cur = vc.cur.havocOnly(escaped, "escaped-addr:"+name)
 		vc.note("address of a field/element passed to %s: component havoc'd after the call", vc.P.shortName(name))
+	}
+	for _, le := range entries {
+		if vc.C != nil && len(vc.C.Effects[le.w.Label]) > 0 {
+			vc.applyEffects(le.w.Label)
+		}
+	}
+	for _, le := range entries {
+		vc.callPost[le.w.Label] = append(vc.callPost[le.w.Label], vc.cur)
 	}
 	for _, le := range entries {
 		vc.logReturn(le, flatten(result))
@@ -463,6 +480,10 @@ func (vc *FuncVC) havocOpaque(tag string) {
 		if !strings.HasSuffix(d, "[*]") || strings.HasPrefix(d, "comp:") {
 			continue
 		}
+		if strings.HasSuffix(d, "[*][*]") {
+			vc.assume(vc.mapSliceStable(d, pre, vc.cur))
+			d = strings.TrimSuffix(d, "[*]")
+		}
 		e, err := ParseExpr(strings.TrimSuffix(d, "[*]"))
 		if err != nil {
 			panic(err)
@@ -555,9 +576,16 @@ func (vc *FuncVC) assumeAllocatedOrFresh(t Term, typ types.Type) {
 	}
 	// dynamic rule: the result is nil, an object some other code already knew, or one the callee allocated
 	{
-		al, es := vc.cur.get("alloc"), vc.cur.get("escaped")
+		al, es := vc.named("alc", vc.cur.get("alloc")), vc.named("esc", vc.cur.get("escaped"))
 		b := vc.baseOf(ref)
 		vc.assume(Or(Eq(ref, IntLit(0)), Select(es, b, SBool), Not(Select(al, b, SBool))))
+		// whatever it is, the object exists from now on and the callee knows it
+		isNil := Eq(ref, IntLit(0))
+		if os.Getenv("GOVC_X1") != "" {
+			return
+		}
+		vc.cur = vc.cur.set("alloc", Store(al, b, Ite(isNil, Select(al, b, SBool), tTrue)))
+		vc.cur = vc.cur.set("escaped", Store(es, b, Ite(isNil, Select(es, b, SBool), tTrue)))
 	}
 	if vc.curInstr == nil {
 		return
@@ -613,13 +641,23 @@ func (vc *FuncVC) applyContract(con *Contract, name string, fn *ssa.Function, si
 		env.vars[names[k+i]] = cv
 	}
 	if fn != nil {
+		bind := func(fv *ssa.FreeVar, b ssa.Value) {
+			if pfv, ok := b.(*ssa.FreeVar); ok {
+				// a cell this function only reads and passes on: its constant content
+				if t, ok := vc.immutableCell(pfv); ok {
+					env.vars[fv.Name()] = &CVal{T: t, Typ: fv.Type().Underlying().(*types.Pointer).Elem()}
+					return
+				}
+			}
+			env.vars[fv.Name()] = &CVal{T: vc.term(b), Typ: fv.Type(), IsCell: true, Suffix: vc.localSuffix(b)}
+		}
 		if mc, ok := c.Value.(*ssa.MakeClosure); ok {
 			for i, fv := range fn.FreeVars {
-				env.vars[fv.Name()] = &CVal{T: vc.term(mc.Bindings[i]), Typ: fv.Type(), IsCell: true, Suffix: vc.localSuffix(mc.Bindings[i])}
+				bind(fv, mc.Bindings[i])
 			}
 		} else if v := vc.val(c.Value); v != nil && v.Clo != nil {
 			for i, fv := range fn.FreeVars {
-				env.vars[fv.Name()] = &CVal{T: vc.term(v.Clo.Bindings[i]), Typ: fv.Type(), IsCell: true, Suffix: vc.localSuffix(v.Clo.Bindings[i])}
+				bind(fv, v.Clo.Bindings[i])
 			}
 		}
 	}
@@ -692,7 +730,17 @@ func (vc *FuncVC) applyContract(con *Contract, name string, fn *ssa.Function, si
 		env.results = []*Val{result}
 	}
 	for _, e := range con.Ensures {
-		vc.assume(Implies(vc.g(), vc.evalBool(env, e)))
+		func() {
+			defer func() {
+				if r := recover(); r != nil {
+					// a clause over the callee's own local variables says nothing a caller can use
+					// (every clause is evaluated in full when the callee itself is verified, so a
+					// clause that only makes sense there - its locals, its loops - is simply not used)
+					vc.note("clause of %s not available to callers (callee-local state): %s", short, truncate(e.Src, 80))
+				}
+			}()
+			vc.assume(Implies(vc.g(), vc.evalBool(env, e)))
+		}()
 	}
 	return result
 }
@@ -768,6 +816,15 @@ func (vc *FuncVC) havocDesignators(env *Env, designators []string, callee string
 				panic(fmt.Errorf("assigns %q: %v", d, err))
 			}
 			sv := vc.eval(env, e)
+			if mt, isMap := sv.Typ.Underlying().(*types.Map); isMap {
+				// every entry of the map
+				dc, vn := vc.mapComps(mt)
+				for _, c := range []string{dc, vn} {
+					_, row := arrayParts(vc.comps[c])
+					st = st.set(c, Store(st.get(c), sv.T, vc.fresh("hvrow", row)))
+				}
+				continue
+			}
 			sl, ok := sv.Typ.Underlying().(*types.Slice)
 			if !ok || isStruct(sl.Elem()) {
 				panic(fmt.Errorf("assigns %q: slice of non-struct elements expected", d))
@@ -800,6 +857,28 @@ func (vc *FuncVC) havocDesignators(env *Env, designators []string, callee string
 // designatorLocs resolves an assigns designator (x.f, x.f.g, *p, s[*]) to locations.
 func (vc *FuncVC) designatorLocs(env *Env, e Expr) []*Loc {
 	switch x := e.(type) {
+	case *EIdent:
+		// a captured variable: the closure cell that holds it
+		if v, ok := env.vars[x.Name]; ok && v.IsCell {
+			elem := v.Typ.Underlying().(*types.Pointer).Elem()
+			if isStruct(elem) {
+				return vc.structLocs(elem, v.T)
+			}
+			return []*Loc{{Comp: vc.cellComp(elem, v.Suffix), Ref: v.T, Typ: elem}}
+		}
+		if !env.callee {
+			for _, fv := range vc.Fn.FreeVars {
+				if fv.Name() == x.Name {
+					elem := fv.Type().Underlying().(*types.Pointer).Elem()
+					ref := vc.val(fv).T
+					if isStruct(elem) {
+						return vc.structLocs(elem, ref)
+					}
+					return []*Loc{{Comp: vc.cellComp(elem, ""), Ref: ref, Typ: elem}}
+				}
+			}
+		}
+		panic(fmt.Errorf("assigns: %s is not a captured variable", x.Name))
 	case *EField:
 		base := vc.eval(env, x.X)
 		ref, st, ok := vc.structRefOf(base)
@@ -1090,7 +1169,31 @@ func (vc *FuncVC) libCall(name string, c *ssa.CallCommon, args []Term) (*Val, bo
 		}
 		return &Val{T: vc.hasAffix(args[0], args[1], lit, name == "strings.HasSuffix"), Typ: bt}, true
 	}
+	if op, ok := atomicOp(name); ok {
+		// sync/atomic on one word: a plain load or store (the verifier follows one goroutine;
+		// interleavings are outside what contracts decide)
+		vc.checkNonNil(c.Args[0], name)
+		if op == "load" {
+			elem := c.Args[0].Type().Underlying().(*types.Pointer).Elem()
+			return &Val{T: vc.load(vc.cur, c.Args[0]), Typ: elem}, true
+		}
+		vc.cur = vc.store(vc.cur, c.Args[0], args[1])
+		return &Val{}, true
+	}
 	return nil, false
+}
+
+// atomicOp recognises the single-word loads and stores of sync/atomic.
+func atomicOp(name string) (string, bool) {
+	for _, t := range []string{"Int32", "Int64", "Uint32", "Uint64", "Uintptr"} {
+		if name == "sync/atomic.Load"+t {
+			return "load", true
+		}
+		if name == "sync/atomic.Store"+t {
+			return "store", true
+		}
+	}
+	return "", false
 }
 
 // ---------- defer / go ----------
@@ -1123,13 +1226,15 @@ func (vc *FuncVC) execGo(x *ssa.Go) {
 	}
 	for _, w := range vc.watches {
 		pk, pn := splitWord(w.Pattern)
-		if pk == "go" && (pn == name || pn == vc.P.shortName(name)) {
+		if pk == "go" && (pn == name || pn == vc.P.shortName(name) || qualify(vc.C.Pkg, pn) == name) {
 			vc.logCall(w, nil, args, nil)
+			vc.watchHit[w.Label] = true
 		}
 	}
 	_ = kind
 	// the goroutine may run at any time: everything it can reach is unknown from here on
-	vc.cur = vc.cur.havoc("go:" + name)
+	vc.curInstr = x
+	vc.havocOpaque("go:" + name)
 	vc.note("go statement: the spawned function's effects are havoc'd from the spawn point on; interleavings are not modelled")
 }
 
@@ -1165,6 +1270,13 @@ func (vc *FuncVC) assignedLocs() map[string][]*Loc {
 				panic(err)
 			}
 			sv := vc.eval(env, e)
+			if mt, isMap := sv.Typ.Underlying().(*types.Map); isMap {
+				dc, vn := vc.mapComps(mt)
+				for _, c := range []string{dc, vn} {
+					allowed[c] = append(allowed[c], &Loc{Comp: c, Ref: sv.T, Typ: mt.Elem()})
+				}
+				continue
+			}
 			sl := sv.Typ.Underlying().(*types.Slice)
 			c := vc.elemComp(sl.Elem())
 			allowed[c] = append(allowed[c], &Loc{Comp: c, Ref: T(app("s_arr", sv.T), SInt), Typ: sl.Elem()})
@@ -1228,6 +1340,88 @@ func (vc *FuncVC) checkFrame() {
 		}
 		vc.oblige("frame", "frame."+comp, vc.g(), vc.frameFormula(comp, vc.cur), "writes outside the assigns clause to "+comp)
 	}
+}
+
+// applyEffects havocs the locations an `effect L ...` clause names: what a call-back
+// from the opaque callee into this repository may have written.
+func (vc *FuncVC) applyEffects(label string) {
+	env := vc.newEnv(vc.cur, vc.entryState)
+	for _, d := range vc.C.Effects[label] {
+		if strings.HasSuffix(d, "[*]") {
+			e, err := ParseExpr(strings.TrimSuffix(d, "[*]"))
+			if err != nil {
+				panic(fmt.Errorf("effect %q: %v", d, err))
+			}
+			sv := vc.eval(env, e)
+			switch u := sv.Typ.Underlying().(type) {
+			case *types.Map:
+				dc, vn := vc.mapComps(u)
+				for _, c := range []string{dc, vn} {
+					_, row := arrayParts(vc.comps[c])
+					vc.cur = vc.cur.set(c, Store(vc.cur.get(c), sv.T, vc.fresh("hvrow", row)))
+				}
+			case *types.Slice:
+				if isStruct(u.Elem()) {
+					panic(fmt.Errorf("effect %q: slice of non-struct elements expected", d))
+				}
+				c := vc.elemComp(u.Elem())
+				_, row := arrayParts(vc.comps[c])
+				vc.cur = vc.cur.set(c, Store(vc.cur.get(c), T(app("s_arr", sv.T), SInt), vc.fresh("hvrow", row)))
+			default:
+				panic(fmt.Errorf("effect %q: map or slice expected", d))
+			}
+			continue
+		}
+		e, err := ParseExpr(d)
+		if err != nil {
+			panic(fmt.Errorf("effect %q: %v", d, err))
+		}
+		for _, l := range vc.designatorLocs(env, e) {
+			nv := vc.fresh("hv", vc.sortOf(l.Typ))
+			vc.assume(vc.typeInv(nv, l.Typ))
+			vc.assumeAllocated(nv, l.Typ)
+			vc.cur = vc.storeLoc(vc.cur, l, nv)
+		}
+	}
+	vc.note("call %s: call-backs may write %s", label, strings.Join(vc.C.Effects[label], ", "))
+}
+
+// effectComps: the heap components named by the effect clauses of a label (for loop prescans).
+func (vc *FuncVC) effectComps(label string) []string {
+	var out []string
+	env := vc.newEnv(vc.entryState, vc.entryState)
+	for _, d := range vc.C.Effects[label] {
+		func() {
+			defer func() {
+				if r := recover(); r != nil {
+					panic(fmt.Errorf("effect %q inside a loop must be resolvable from the parameters: %v", d, r))
+				}
+			}()
+			if strings.HasSuffix(d, "[*]") {
+				e, err := ParseExpr(strings.TrimSuffix(d, "[*]"))
+				if err != nil {
+					panic(err)
+				}
+				sv := vc.eval(env, e)
+				switch u := sv.Typ.Underlying().(type) {
+				case *types.Map:
+					dc, vn := vc.mapComps(u)
+					out = append(out, dc, vn)
+				case *types.Slice:
+					out = append(out, vc.elemComp(u.Elem()))
+				}
+				return
+			}
+			e, err := ParseExpr(d)
+			if err != nil {
+				panic(err)
+			}
+			for _, l := range vc.designatorLocs(env, e) {
+				out = append(out, l.Comp)
+			}
+		}()
+	}
+	return out
 }
 
 // ---------- loop prescan ----------
@@ -1357,6 +1551,9 @@ func (vc *FuncVC) prescanCall(li *loopInfo, c *ssa.CallCommon) {
 				}
 			}
 			li.logLabels = append(li.logLabels, w.Label)
+			if vc.C != nil && len(vc.C.Effects[w.Label]) > 0 {
+				add(vc.effectComps(w.Label)...)
+			}
 		}
 	}
 	for _, a := range c.Args {
@@ -1391,6 +1588,9 @@ func (vc *FuncVC) prescanCall(li *loopInfo, c *ssa.CallCommon) {
 		return
 	}
 	if _, ok := vc.libCall0(name); ok {
+		if op, _ := atomicOp(name); op == "store" {
+			add(vc.storeComps(c.Args[0])...)
+		}
 		return
 	}
 	li.havoc = true
@@ -1400,6 +1600,9 @@ func (vc *FuncVC) prescanCall(li *loopInfo, c *ssa.CallCommon) {
 func (vc *FuncVC) libCall0(name string) (string, bool) {
 	switch name {
 	case "strings.HasPrefix", "strings.HasSuffix":
+		return name, true
+	}
+	if _, ok := atomicOp(name); ok {
 		return name, true
 	}
 	return "", false
@@ -1471,6 +1674,11 @@ func (vc *FuncVC) designatorComps(con *Contract, sig *types.Signature, c *ssa.Ca
 			t := typeOf(e)
 			if t == nil {
 				return nil, true
+			}
+			if mt, isMap := t.Underlying().(*types.Map); isMap {
+				dc, vn := vc.mapComps(mt)
+				comps = append(comps, dc, vn)
+				continue
 			}
 			sl, ok := t.Underlying().(*types.Slice)
 			if !ok || isStruct(sl.Elem()) {
@@ -1551,6 +1759,9 @@ func (vc *FuncVC) stableFormula(d string, st *State) Term {
 	}
 	entry := vc.entryState
 	env := vc.newEnv(entry, entry)
+	if strings.HasSuffix(d, "[*][*]") {
+		return And(vc.stableFormula(strings.TrimSuffix(d, "[*]"), st), vc.mapSliceStable(d, entry, st))
+	}
 	if strings.HasSuffix(d, "[*]") {
 		e, err := ParseExpr(strings.TrimSuffix(d, "[*]"))
 		if err != nil {
@@ -1584,6 +1795,38 @@ func (vc *FuncVC) stableFormula(d string, st *State) Term {
 		cs = append(cs, Eq(vc.loadLoc(st, l), vc.loadLoc(entry, l)))
 	}
 	return And(cs...)
+}
+
+// mapSliceStable (stable m[*][*], m a map of slices): the elements of every slice
+// the map holds in state from are the same in state to.
+func (vc *FuncVC) mapSliceStable(d string, from, to *State) Term {
+	e, err := ParseExpr(strings.TrimSuffix(d, "[*][*]"))
+	if err != nil {
+		panic(err)
+	}
+	sv := vc.eval(vc.newEnv(from, vc.entryState), e)
+	mt, isMap := sv.Typ.Underlying().(*types.Map)
+	if !isMap {
+		panic(fmt.Errorf("stable %s: a map of slices is expected", d))
+	}
+	sl, isSlice := mt.Elem().Underlying().(*types.Slice)
+	if !isSlice || isStruct(sl.Elem()) {
+		panic(fmt.Errorf("stable %s: a map of slices of non-struct elements is expected", d))
+	}
+	dc, vn := vc.mapComps(mt)
+	ks := vc.sortOf(mt.Key())
+	c := vc.elemComp(sl.Elem())
+	if to.get(c).S == from.get(c).S {
+		return tTrue
+	}
+	_, row := arrayParts(vc.comps[c])
+	dom := vc.named("stbd", Select(from.get(dc), sv.T, arraySort(ks, SBool)))
+	val := vc.named("stbv", Select(from.get(vn), sv.T, arraySort(ks, SSlice)))
+	cur := vc.named("stb", to.get(c))
+	old := vc.named("stb0", from.get(c))
+	k := T("|q!stk|", ks)
+	arr := T(app("s_arr", Select(val, k, SSlice)), SInt)
+	return T(fmt.Sprintf("(forall ((|q!stk| %s)) (! (=> %s (= %s %s)) :pattern (%s)))", ks, Select(dom, k, SBool).S, Select(cur, arr, row).S, Select(old, arr, row).S, Select(val, k, SSlice).S), SBool)
 }
 
 // escapingClosureWrites: the heap components written by closures of this function
@@ -1676,6 +1919,11 @@ func (vc *FuncVC) scanFnWrites(fn *ssa.Function, set map[string]bool, depth int)
 					continue
 				}
 				if _, ok := vc.libCall0(name); ok {
+					if op, _ := atomicOp(name); op == "store" {
+						for _, c := range vc.storeComps(x.Common().Args[0]) {
+							set[c] = true
+						}
+					}
 					continue
 				}
 				// calls that leave the repository (interface methods, func values, library
